@@ -9,7 +9,7 @@ from ..astutil import call_chain, chain, self_store
 from ..core import Ctx, Report
 from ..model import ClassInfo, FuncInfo, norm
 from ..paths import enumerate_paths
-from .proto import net_mayraise, loop_callbacks, proto_classes, protocol_paths, tags, NetValueError
+from .proto import net_mayraise, loop_callbacks, proto_classes, protocol_paths, tags, NetValueError, dominated_by_not_done
 
 PID = "C09"
 LEVEL = "other"
@@ -113,7 +113,7 @@ def r2(ctx: Ctx, rep: Report):
                 if p.end != "raise":
                     continue
                 exc, origin = p.end_data, p.end_node
-                if exc is ise and _dominated_by_not_done(p, origin):
+                if exc is ise and dominated_by_not_done(p, origin):
                     continue
                 escapes.setdefault((prog.exc_name(exc), id(origin)), (exc, origin, p))
             is_stream = any(isinstance(b, str) and b == "asyncio.Protocol" for b in prog.mro(ci))
@@ -127,27 +127,6 @@ def r2(ctx: Ctx, rep: Report):
                     rep.ok("C09.R2", key, cb.loc(origin), "%s.error_received is never invoked by asyncio for a stream protocol" % ci.name)
                 else:
                     rep.violation("C09.R2", key, cb.loc(origin), msg)
-
-
-def _dominated_by_not_done(p, origin) -> bool:
-    """The raising set_result/set_exception is preceded on the path by `<same future>.done()` tested False
-    with nothing completing the future in between."""
-    fut = (call_chain(origin) or ())[:-1]
-    idx = None
-    for i, ev in enumerate(p.events):
-        if ev.kind == "raise" and ev.node is origin:
-            idx = i
-    if idx is None:
-        return False
-    for k in range(idx - 1, -1, -1):
-        ev = p.events[k]
-        if ev.kind == "test" and isinstance(ev.node, ast.Call) and (call_chain(ev.node) or ())[-1:] == ("done",) \
-                and (call_chain(ev.node) or ())[:-1] == fut:
-            return ev.data is False
-        t = tags(ev)
-        if t & {"fut_set_result", "fut_set_exception", "fut_cancel", "close_transport", "await"}:
-            return False
-    return False
 
 
 def r3(ctx: Ctx, rep: Report):
